@@ -17,11 +17,11 @@ import numpy as np
 import common as C
 
 MODE_NO = 48            # modes of the randomization method in histories (cost only; any value works)
-NC, NK, NP = 19, 3, 8   # trace row layout: result block, (cnames, knames, haspos), cur_desc + seed
+NC, NK, NP = 21, 3, 9   # trace row layout: result block, (cnames, knames, haspos), cur_desc + seed
 OPN = ["Call", "SetPos", "SetCond:NewVals", "SetCond:NewPos", "SetCond:Refresh", "ModelInplace", "SetModel",
        "SetMean", "SetTrend", "SetNorm", "SetGen", "MutatePosInPlace", "DirectKrigeCall", "AssignPos", "ReassignSameModel",
        "MutateCondArrayInPlace"]
-NCOL = 9                # row = [code, haspos, base, jit, mesh, seed+1, nosave, chunk option, store-name set]
+NCOL = 10               # row = [code, haspos, base, jit, mesh, seed+1, nosave, chunk option, store-name set, ext-drift id]
 
 
 def chunk_size_for(code, npts):
@@ -169,15 +169,17 @@ class World:
             return float(r.normal())
         return trend_fn(float(r.uniform(-0.5, 0.5)))
 
-    def target_ext(self, base, jit, mesh):
-        """external drift at the target points (flattened in C order for structured meshes)"""
+    def target_ext(self, base, jit, mesh, xd=0):
+        """external drift at the target points (flattened in C order for structured meshes); xd selects one of several
+        clearly different drift value sets for the same points"""
         if not self.ext:
             return {}
         ax = self.pos(base, jit, mesh)
         if mesh:
             g = np.array(np.meshgrid(*ax, indexing="ij")).reshape(self.dim, -1)
-            return dict(ext_drift=ext_fun(*g))
-        return dict(ext_drift=ext_fun(*ax))
+        else:
+            g = np.array(ax)
+        return dict(ext_drift=np.array(ext_fun(*g) + xd * (0.4 + 0.5 * np.sin(3.0 * g[0])), dtype=np.double))
 
     def user_cond(self, cond):
         """the float64 arrays the CALLER passes as conditions (kept, so that they can be edited in place later)"""
@@ -227,7 +229,7 @@ def gen_rows(rng, nops, allow_jit):
     nsets = [[0], [0, 1], [0, 1, 2], [1, 2]][int(rng.choice(4, p=[0.45, 0.3, 0.15, 0.1]))]
 
     def call_row(haspos, b=0, j=0, m=0):
-        row = [0, haspos, b, j, m, 0, 0, 0, int(nsets[int(rng.integers(len(nsets)))])]
+        row = [0, haspos, b, j, m, 0, 0, 0, int(nsets[int(rng.integers(len(nsets)))]), int(rng.choice([0, 0, 0, 1, 2]))]
         if rng.random() < 0.5:
             row[5] = 1 + int(rng.integers(1, 2000))
         if rng.random() < 0.12:
@@ -247,7 +249,7 @@ def gen_rows(rng, nops, allow_jit):
                 if rng.random() < 0.7:
                     rows.append(call_row(1, b, 0, cur[2]))
             elif v < 0.75:
-                row = [12, 0, 0, 0, 0]
+                row = [12, 0, 0, 0, 0, 0, 0, 0, 0, int(rng.choice([0, 0, 1]))]
                 if rng.random() < 0.75:
                     b, m = int(rng.integers(4)), int(rng.random() < 0.3)
                     if rng.random() < 0.3:
@@ -348,11 +350,14 @@ class HistoryRunner:
             rows.append([4, 0, 0, 0, 0, 0, 0])
         rows.append([0, 0, 0, 0, 0, 0, 0] if haspos else [0, 1, 0, 0, 0, 0, 0])
         rows = [(r + [0] * NCOL)[:NCOL] for r in rows]
-        case = dict(history=dict(wseed=int(wseed), rows=rows), dim=w.dim, unbiased=w.unbiased, drift=w.drift,
+        if not w.ext:
+            for r in rows:
+                r[9] = 0            # no external drift in this world
+        case = dict(history=dict(wseed=int(wseed), rows=rows), dim=w.dim, ext_drift=w.ext, unbiased=w.unbiased, drift=w.drift,
                     ops=[OPN[r[0]] for r in rows], origin=origin)
         trace = None
         if self.drv is not None:
-            trace = self.drv.call("trace", True, True, True, True, True, ("n", w.seed0), np.array(rows, dtype=np.int64))
+            trace = self.drv.call("trace", True, True, True, True, True, True, True, ("n", w.seed0), np.array(rows, dtype=np.int64))
             if isinstance(trace, tuple) and trace and trace[0] == "error":
                 self.tie_broken.append("model trace failed: %r" % (trace,))
                 trace = None
@@ -375,6 +380,7 @@ class HistoryRunner:
         cur_pos = None          # (base, jit, mesh)
         dirty = False
         jittered = False
+        cur_xd = 0              # id of the external drift values last given for the target points
         last_change = "none"
         kv_pos = None           # the positions Krige's stored fields were computed on (csrf.pos = ... does not delete them)
         for i, r in enumerate(rows):
@@ -395,7 +401,8 @@ class HistoryRunner:
                         if r[7]:
                             n1 = len(w.bases[r[2] % 4][0])
                             kw["chunk_size"] = chunk_size_for(r[7], n1 ** w.dim if r[4] else n1)
-                        kw.update(w.target_ext(r[2], r[3], r[4]))
+                        kw.update(w.target_ext(r[2], r[3], r[4], r[9]))
+                        cur_xd = r[9]
                         out = csrf(w.user_pos(r[2], r[3], r[4]), seed=sd, mesh_type=mesh_name(r[4]), **kw)
                     else:
                         kw = store_kw(r)
@@ -403,7 +410,10 @@ class HistoryRunner:
                             if r[7]:
                                 n1 = len(w.bases[cur_pos[0] % 4][0])
                                 kw["chunk_size"] = chunk_size_for(r[7], n1 ** w.dim if cur_pos[2] else n1)
-                            kw.update(w.target_ext(*cur_pos))
+                            kw.update(w.target_ext(*cur_pos, r[9]))
+                            if cur_xd != r[9]:
+                                last_change = "Call:other-ext_drift"
+                            cur_xd = r[9]
                         out = csrf(seed=sd, **kw)
                     if r[6]:
                         last_change = "Call:store-raw_krige=False"
@@ -412,12 +422,13 @@ class HistoryRunner:
                     out = np.array(out, copy=True)
                     reuse = calls[0] == 0
                     if not reuse:
-                        kv_pos = cur_pos
+                        kv_pos = (cur_pos, cur_xd)
                 elif code == 1:
                     if cur_pos is not None and cur_pos[0] == r[2] and cur_pos[2] == r[4] and cur_pos[1] != r[3]:
                         jittered = True
                     cur_pos = (r[2], r[3], r[4])
                     csrf.set_pos(w.user_pos(r[2], r[3], r[4]), mesh_name(r[4]))
+                    cur_xd = r[9]
                 elif code == 2:
                     w.cur_cond = w.new_cond(False, w.cur_cond)
                     w.ucond["val"] = np.array(w.cur_cond[1], dtype=np.double)      # a new array of the caller
@@ -473,10 +484,11 @@ class HistoryRunner:
                         new_pos = (r[2], r[3], r[4])
                         arg = w.user_pos(r[2], r[3], r[4])
                         cur_pos = new_pos
-                        csrf.krige(arg, mesh_type=mesh_name(r[4]), **w.target_ext(r[2], r[3], r[4]))
+                        cur_xd = r[9]
+                        csrf.krige(arg, mesh_type=mesh_name(r[4]), **w.target_ext(r[2], r[3], r[4], r[9]))
                     else:
-                        csrf.krige(**(w.target_ext(*cur_pos) if cur_pos is not None else {}))
-                    kv_pos = cur_pos
+                        csrf.krige(**(w.target_ext(*cur_pos, cur_xd) if cur_pos is not None else {}))
+                    kv_pos = (cur_pos, cur_xd)
                 elif code == 13:
                     last_change = OPN[code]
                     m = cur_pos[2] if cur_pos is not None else 0
@@ -484,6 +496,7 @@ class HistoryRunner:
                         jittered = True
                     csrf.pos = w.user_pos(r[2], r[3], m)
                     cur_pos = (r[2], r[3], m)
+                    cur_xd = r[9]
                 elif code == 14:
                     csrf.model = csrf.model         # the same (possibly edited) object
                     dirty, last_change = False, OPN[code]
@@ -509,7 +522,7 @@ class HistoryRunner:
             if trace is not None:
                 row = [int(x) for x in trace[i]]
                 res, st = row[:NC], row[NC:]
-                cd = dict(pos=(st[3], st[4]), mesh=st[5], cond=st[6], matmodel=st[7], model=st[8], mtn=st[9], seed=st[10])
+                cd = dict(pos=(st[3], st[4]), ext=st[5], mesh=st[6], cond=st[7], matmodel=st[8], model=st[9], mtn=st[10], seed=st[11])
                 # bind the model's new version numbers to the concrete contents installed by this operation
                 w.cond.setdefault(cd["cond"], w.cur_cond)
                 w.model.setdefault(cd["model"], model_now)
@@ -531,9 +544,9 @@ class HistoryRunner:
                     self.tie_broken.append("op %d (%s) wseed=%d: model version numbers do not follow the installed settings" % (i, OPN[code], wseed))
                     trace = None
                 elif kind == 2 and res[0] == 2:
-                    k = dict(pos=(res[2], res[3]), mesh=res[4], cond=res[5], matmodel=res[6], model=res[7], mtn=res[8])
-                    v = dict(pos=(res[9], res[10]), mesh=res[11], cond=res[12], matmodel=res[13], model=res[14], mtn=res[15])
-                    gmodel, gseed, post = res[16], res[17], res[18]
+                    k = dict(pos=(res[2], res[3]), ext=res[4], mesh=res[5], cond=res[6], matmodel=res[7], model=res[8], mtn=res[9])
+                    v = dict(pos=(res[10], res[11]), ext=res[12], mesh=res[13], cond=res[14], matmodel=res[15], model=res[16], mtn=res[17])
+                    gmodel, gseed, post = res[18], res[19], res[20]
                     try:
                         expf = self.expected(w, k, v, gmodel, gseed, post, cur_pos)
                     except Exception as e:  # noqa
@@ -547,7 +560,7 @@ class HistoryRunner:
                         case["tie_mismatch"] = dict(op=i, provenance=dict(k=k, v=v, gmodel=gmodel, seed=gseed, post=post))
                         # fall through to the property probe below: it decides whether this is a counter-example
             # ---- after EVERY step: the kriging setup of the object equals that of a fresh Krige built from the present values
-            bad = self.check_setup(w, csrf, model_now, dirty, cur_pos if kv_pos == cur_pos else None)
+            bad = self.check_setup(w, csrf, model_now, dirty, cur_pos if kv_pos == (cur_pos, cur_xd) else None, cur_xd)
             if bad:
                 ctx.violation("probe: kriging setup after a history vs freshly built Krige",
                               "after op %d (%s) %s differ(s) from a Krige freshly built from the present model / conditions / mean-trend-normalizer"
@@ -557,7 +570,7 @@ class HistoryRunner:
             # ---- property probe: a freshly built object returns the identical field
             if kind == 2 and not dirty:
                 b, j, m = cur_pos
-                fresh, fstored = w.fresh_field(model_now, w.cur_cond, w.cur_mtn, cur_seed, w.pos(b, j, m), mesh_name(m), w.target_ext(b, j, m))
+                fresh, fstored = w.fresh_field(model_now, w.cur_cond, w.cur_mtn, cur_seed, w.pos(b, j, m), mesh_name(m), w.target_ext(b, j, m, cur_xd))
                 sc = max(1.0, float(np.max(np.abs(fresh))))
                 ctx.count(None)
                 nm = NAMESETS[r[8]]
@@ -582,7 +595,7 @@ class HistoryRunner:
         # ---- closing step (outside the model trace): exactness at the present conditioning points
         return self.exactness(w, csrf, case, cur_seed)
 
-    def check_setup(self, w, csrf, model_now, dirty, cur_pos):
+    def check_setup(self, w, csrf, model_now, dirty, cur_pos, cur_xd=0):
         kr = csrf.krige
         bad = []
 
@@ -606,7 +619,7 @@ class HistoryRunner:
             bad.append("prepared conditioning values")
         if not bad and cur_pos is not None and "krige_var" in kr.field_names and "field" in kr.field_names:
             b, j, m = cur_pos
-            f, v = fk(w.pos(b, j, m), mesh_type=mesh_name(m), store=False, **w.target_ext(b, j, m))
+            f, v = fk(w.pos(b, j, m), mesh_type=mesh_name(m), store=False, **w.target_ext(b, j, m, cur_xd))
             if differ(kr.krige_var, v):
                 bad.append("stored krige_var")
             if differ(kr.field, f):
@@ -652,7 +665,7 @@ class HistoryRunner:
             mm, mr = w.model[d["matmodel"]], w.model[d["model"]]
             kr = w.krige(w.cond[d["cond"]], mm, w.mtn[d["mtn"]], None if d["matmodel"] == d["model"] else mr)
             return kr(w.pos(d["pos"][0], d["pos"][1], d["mesh"]), mesh_type=mesh_name(d["mesh"]), post_process=False, store=False,
-                      **w.target_ext(d["pos"][0], d["pos"][1], d["mesh"]))
+                      **w.target_ext(d["pos"][0], d["pos"][1], d["mesh"], d["ext"]))
         rk, kv = raw_krige(k)
         if v != k:
             _, kv = raw_krige(v)
@@ -928,21 +941,51 @@ def formula_probe(ctx, rng, drv, tie_broken, reps):
 
 
 def window_probe(ctx, rng):
-    """known finding: a position change below the np.allclose tolerance of Field._pos_equal keeps the stored kriging results"""
+    """positions that differ by less than the former np.allclose tolerance of Field._pos_equal are different positions
+    (repaired by bd353ac), and another ext_drift given with the call is another kriging target (fb09c72)"""
     import gstools as gs
-    model = gs.Exponential(dim=1, var=1.0, len_scale=1.0)
-    cp, cv = [[1.0, 2.5, 4.0]], [0.3, -1.0, 2.0]
+    cv = np.array([0.47, 0.56, 0.74, 1.47])
+    # small coordinates, shift 4e-6
+    mk = lambda: gs.CondSRF(gs.krige.Ordinary(gs.Exponential(dim=1, var=1.0, len_scale=1.0), [[1.0, 2.5, 4.0]], [0.3, -1.0, 2.0]), seed=11, mode_no=32)  # noqa: E731
     pos = np.linspace(1.2, 5.0, 7)
-    pos2 = pos + 4e-6
-    csrf = gs.CondSRF(gs.krige.Ordinary(model, cp, cv), seed=11, mode_no=32)
-    csrf(pos)
-    f = csrf(pos2)
-    fresh = gs.CondSRF(gs.krige.Ordinary(gs.Exponential(dim=1, var=1.0, len_scale=1.0), cp, cv), seed=11, mode_no=32)(pos2)
-    ctx.count(("window",), hist=dict(probe="pos-window"))
+    c = mk()
+    c(pos)
+    f = c(pos + 4e-6)
+    fresh = mk()(pos + 4e-6)
+    ctx.count(("window", "small"), hist=dict(probe="pos-window"))
     if not np.all(np.abs(f - fresh) <= 1e-12 * (1 + np.abs(fresh))):
-        ctx.violation("probe: np.allclose window of _pos_equal",
-                      "csrf(pos); csrf(pos + 4e-6) reuses the kriging field of the old positions: differs from a fresh object by %.3g"
+        ctx.violation("probe: nearly equal positions", "csrf(pos); csrf(pos + 4e-6) reuses the kriging field of the old positions: differs from a fresh object by %.3g"
                       % float(np.max(np.abs(f - fresh))), dict(probe="pos-window", pos=pos.tolist(), shift=4e-6), key="pos-window:np.allclose")
+    # UTM-scale coordinates: targets 3 m beside the data, then exactly on the data
+    for shift in (3.0, float(rng.uniform(0.5, 4.5))):
+        cpu = np.array([[500000.0, 500010.0, 500020.0, 500035.0]])
+        mk2 = lambda: gs.CondSRF(gs.krige.Ordinary(gs.Exponential(dim=1, var=1.0, len_scale=5.0), cpu, cv), seed=1, mode_no=32)  # noqa: E731
+        c = mk2()
+        c(cpu[0] + shift, seed=1)
+        g = c(cpu[0].copy(), seed=1)
+        fresh = mk2()(cpu[0].copy(), seed=1)
+        ctx.count(("window", "utm"), hist=dict(probe="pos-window"))
+        if not (np.all(np.abs(g - fresh) <= 1e-12 * (1 + np.abs(fresh))) and np.all(np.abs(g - cv) <= 1e-6)):
+            ctx.violation("probe: nearly equal positions", "UTM-scale targets %.2f m beside the data, then on the data: field at the conditioning points %r, data %r"
+                          % (shift, g.tolist(), cv.tolist()), dict(probe="pos-window-utm", shift=shift, cond_pos=cpu.tolist()), key="pos-window:np.allclose")
+    # external drift given with the call
+    for rep in range(3):
+        cp = np.array([[0.3, 1.9, 1.1, 3.3]])
+        ed = np.array([0.1, 0.5, 0.3, 0.9])
+        pos = np.array([0.5, 1.0, 2.5, 3.0, 4.0])
+        a = 0.2 * pos
+        b = a + rng.normal(size=5) * 2
+        mk3 = lambda: gs.CondSRF(gs.krige.ExtDrift(gs.Exponential(dim=1, var=1.0, len_scale=2), cp, cv, ed), seed=1, mode_no=32)  # noqa: E731
+        c = mk3()
+        c(pos, ext_drift=a, seed=1)
+        f2 = c(ext_drift=b, seed=1)
+        f3 = np.array(c(seed=2), copy=True)            # no drift given again: the stored results (for b) are reused
+        fresh = mk3()(pos, ext_drift=b, seed=1)
+        fresh3 = mk3()(pos, ext_drift=b, seed=2)
+        ctx.count(("ext-drift-per-call",), hist=dict(probe="ext-drift-per-call"))
+        if not (np.all(np.abs(f2 - fresh) <= 1e-12 * (1 + np.abs(fresh))) and np.all(np.abs(f3 - fresh3) <= 1e-12 * (1 + np.abs(fresh3)))):
+            ctx.violation("probe: ext_drift given with the call", "crf(pos, ext_drift=a); crf(ext_drift=b) differs from a fresh object by %.3g"
+                          % float(np.max(np.abs(f2 - fresh))), dict(probe="ext-drift-per-call", a=a.tolist(), b=b.tolist()), key="history:stale-after:Call:other-ext_drift")
 
 
 def corpus_cases():
@@ -956,13 +999,11 @@ def corpus_cases():
 
 
 def merge_local_known_findings(ctx):
-    """known_findings.json is assembled by the coordinator from known_findings.d/*.json; read our own fragment too"""
+    """known_findings.json is assembled by the coordinator from known_findings.d/*.json; our own fragment is the
+    authoritative list for C07 (an entry that became "fixed" must no longer suppress anything)"""
     p = os.path.join(C.VERIF, "known_findings.d", "C07.json")
     if os.path.exists(p):
-        have = {k["key"] for k in ctx.kf}
-        for e in json.load(open(p)):
-            if e.get("property") == "C07" and e["key"] not in have:
-                ctx.kf.append(e)
+        ctx.kf = [e for e in json.load(open(p)) if e.get("property") == "C07"]
 
 
 def run(ctx, only_history=None):
@@ -988,7 +1029,6 @@ def run(ctx, only_history=None):
     ctx.not_proved = [
         "far-field limit as a limit statement: proved are the exact end point (estimate 0, variance = sill) and a quantitative bound for models "
         "without nugget; that simple-kriging weights vanish far from the data is probed only",
-        "np.allclose window of Field._pos_equal: C07_cache_coherent assumes positions are identical or not allclose (C07_pos_window_refuted; known finding)",
         "krige_store options, assigning csrf.mesh_type (raises ValueError on the next call unless the shapes happen to "
         "agree), in-place edits of arrays obtained from the getters (csrf.pos[...] = ...), fit_normalizer/fit_variogram and seed=None are "
         "outside the modelled operation alphabet",
@@ -1020,7 +1060,7 @@ def run(ctx, only_history=None):
         n_hist = 1200 if thorough else 160
         for h in range(n_hist):
             wseed = int(rng.integers(1, 2 ** 31))
-            allow_jit = rng.random() < 0.15
+            allow_jit = rng.random() < 0.3
             rows = [(r + [0] * NCOL)[:NCOL] for r in gen_rows(rng, int(rng.integers(2, 11)), allow_jit)]
             ncall = sum(1 for r in rows if r[0] == 0)
             nchg = sum(1 for r in rows if r[0] >= 2)
